@@ -80,7 +80,7 @@ def _norm_annotation(o):
     return o
 
 
-def c10_document(E, with_groups=("none", "reactions+metabolites")):
+def c10_document(E, with_groups=("none", "reactions+metabolites", "reactions+metabolites+genes")):
     """write_sbml_model / read_sbml_model through the real _model_to_sbml and _sbml_to_model with symbolic stoichiometric
     coefficients, bounds and objective coefficient.  Symbolic paths run on the libsbml stand-in (vlib/fakesbml.py), their
     witnesses on the real libsbml, where the written document is also put to validate_sbml_model."""
@@ -128,7 +128,8 @@ def c10_document(E, with_groups=("none", "reactions+metabolites")):
         m.notes = {"k": "v"}
         grp = E.pick("groups", list(with_groups))
         if grp != "none":
-            m.add_groups([Group("G1", name="group one", members=[m.reactions.R1, m.metabolites.A], kind="partonomy"),
+            m.add_groups([Group("G1", name="group one", kind="partonomy",
+                                members=[m.reactions.R1, m.metabolites.A] + ([m.genes.g1] if grp.endswith("genes") else [])),
                           Group("G2", name="second", members=[m.reactions.R2], kind="collection")])
         E.note(direction=direction, config_bounds=str(cfgb), bounds_kind=kind, groups=grp)
         a = observe(m)
@@ -296,7 +297,7 @@ HARNESSES = [
       bounds="base model (5 reactions, 3 metabolites, 3 genes); R1 with symbolic coefficients [1/4,4], bounds in [-2000,2000] or "
              "infinite / 0 / configured default by choice, symbolic objective coefficient in [-5,5]; direction max/min; "
              "Configuration().bounds (-1000,1000)/(-10,10); charge / formula / annotation / notes tables; groups of reactions and "
-             "metabolites or none; default F_REPLACE id escaping; libsbml replaced by a documented stand-in on symbolic paths, "
+             "metabolites (and genes) or none; default F_REPLACE id escaping; libsbml replaced by a documented stand-in on symbolic paths, "
              "the real libsbml (plus validate_sbml_model) on every 25th path's witness"),
     H("c10_foreign", c10_foreign, quick=dict(max_paths=20000, time_budget=40), thorough=dict(max_paths=200000, time_budget=200),
       witness_every=10,
